@@ -1,4 +1,5 @@
 import SimuVerif.Model.BroadPhase
+import SimuVerif.Lemmas.ContactMinMax
 import SimuVerif.Lemmas.Field
 import SimuVerif.Lemmas.KernelSpec
 import Mathlib.Algebra.Order.Floor.Ring
@@ -12,15 +13,6 @@ set_option linter.unusedSectionVars false
 namespace Simu.BP
 open Simu Simu.Gen
 variable {R : Type} [Field R] [LinearOrder R] [IsStrictOrderedRing R]
-
-theorem cmin_le_left (a b : R) : cmin a b ≤ a := by unfold cmin; split_ifs with h <;> [exact le_of_lt h; exact le_refl _]
-theorem cmin_le_right (a b : R) : cmin a b ≤ b := by unfold cmin; split_ifs with h <;> [exact le_refl _; exact not_lt.mp h]
-theorem le_cmax_left (a b : R) : a ≤ cmax a b := by unfold cmax; split_ifs with h <;> [exact le_of_lt h; exact le_refl _]
-theorem le_cmax_right (a b : R) : b ≤ cmax a b := by unfold cmax; split_ifs with h <;> [exact le_refl _; exact not_lt.mp h]
-theorem cmax_eq (a b : R) : cmax a b = max a b := by
-  unfold cmax; split_ifs with h
-  · exact (max_eq_right (le_of_lt h)).symm
-  · exact (max_eq_left (not_lt.mp h)).symm
 
 /-- a convex combination lies between the smallest and the largest of the three values -/
 theorem convex_between (x y z u v w lo hi : R) (hu : 0 ≤ u) (hv : 0 ≤ v) (hw : 0 ≤ w) (hs : u + v + w = 1)
